@@ -540,7 +540,8 @@ func cReaderHandle(p *Program, r *Report, rule string) {
 				}
 				return "NOT-FORWARDED " + pa.Ret[0].Key() + "," + pa.Ret[1].Key()
 			}
-			if len(fw) != 1 || argKey(fw[0], 0) != "msgReaderHandle.mr" || argKey(fw[0], 1) != "param:p" {
+			// to its own reader, under its own context, for its own message, with the caller's buffer
+			if len(fw) != 1 || len(fw[0].Args) != 4 || argKey(fw[0], 0) != "msgReaderHandle.mr" || argKey(fw[0], 1) != "msgReaderHandle.ctx" || argKey(fw[0], 2) != "msgReaderHandle.gen" || argKey(fw[0], 3) != "param:p" {
 				return "FORWARDED-ELSEWHERE"
 			}
 			if !keyIs(pa.Ret[0], "call:msgReader.Read@@#0") || !keyIs(pa.Ret[1], "call:msgReader.Read@@#1") {
@@ -570,7 +571,7 @@ func cReaderHandle(p *Program, r *Report, rule string) {
 			}
 			return []string{"FORWARDED"}
 		},
-		What: "a handle that has reported io.EOF returns (0, io.EOF) without touching the shared reader; one that has not forwards once to its msgReader with the caller's buffer, returns its results unchanged and marks the end exactly when the error is io.EOF",
+		What: "a handle that has reported io.EOF returns (0, io.EOF) without touching the shared reader; one that has not forwards once to its msgReader with its own context, its own generation and the caller's buffer, returns the results unchanged and marks the end exactly when the error is io.EOF",
 	})
 	if f := p.FieldOpt("msgReaderHandle.eof"); f != nil {
 		for _, fa := range p.FieldAccesses(f) {
